@@ -534,6 +534,9 @@ fn cmd_check(a: &Args) -> i32 {
         dn_l + dn_k,
         (lay.runs + lik.runs) as f64 / sim_wall.max(1e-9)
     );
+    if world::FOREIGN_THREAD_SEAM_USE.load(std::sync::atomic::Ordering::SeqCst) {
+        harness_error("the generator reached a simulator seam from a thread it spawned itself: this simulator owns no thread scheduler (the pinned generators are single-threaded), so no verdict is given");
+    }
     // the seams must actually have been exercised, otherwise silence means nothing
     if layout_runs >= 100 {
         if lay.stats.read_dir_calls == 0 || lay.stats.containers == 0 || lay.stats.iterations == 0 {
